@@ -88,3 +88,46 @@ func VerifC10() {
 		v.Assert(n == len(want), "iter-count")
 	}
 }
+
+// VerifC10evict: more commits than the cache holds (capacity 2, four commits), so every cache slot
+// is recycled once; one arbitrary Set/Remove before each of the first three commits. Reads at the
+// cached past height 3 (served from a recycled slot) must equal the tree's state at height 3.
+func VerifC10evict() {
+	m := NewMemoryCache(2)
+	_ = m.InitializeStoreCache(0)
+	tree := modelkv.New()
+	var snap3 *modelkv.Store
+	for h := int64(1); h <= 4; h++ {
+		if h <= 3 {
+			c10ops(m, tree, 1)
+		}
+		m.Commit(h)
+		if h == 3 {
+			snap3 = modelkv.New()
+			for _, kv := range tree.Snapshot() {
+				snap3.SetRaw(kv.K, kv.V)
+			}
+		}
+	}
+	v.Assert(m.isHeightSafeToRead(3), "height-3-cached")
+	if v.Choice(2) == 0 {
+		key := v.Bytes(1)
+		got, err := m.Get(3, key)
+		want := snap3.GetRaw(key)
+		v.Assert(err == nil, "evict-get-served")
+		v.Assert(v.And((got == nil) == (want == nil), bytes.Equal(got, want)), "evict-get-equals-tree")
+	} else {
+		it, err := m.Iterator(3, nil, nil)
+		v.Assert(err == nil, "evict-iterator-served")
+		want := snap3.Range(nil, nil, false)
+		n := 0
+		for ; it.Valid() && n < 8; it.Next() {
+			v.Assert(n < len(want), "evict-iter-no-extra")
+			if n < len(want) {
+				v.Assert(v.And(bytes.Equal(it.Key(), want[n].K), bytes.Equal(it.Value(), want[n].V)), "evict-iter-element")
+			}
+			n++
+		}
+		v.Assert(n == len(want), "evict-iter-count")
+	}
+}
